@@ -25,6 +25,7 @@ type c07Case struct {
 	K       int    `json:"k"`      // running: block when K instructions were dispatched
 	DelayUs int    `json:"delay_us"`
 	MaxLog  int    `json:"maxlog"` // step events are logged up to this index (and always after Abort)
+	LeakMs  int    `json:"leak_ms"` // how long the runner stays blocked after Abort while the caller must not return (default 15)
 }
 
 type c07Run struct {
@@ -145,12 +146,16 @@ func c07InstallHooks() {
 	})
 }
 
+var errC07Cause = errors.New("the cause given to the cancel function")
+
 func c07Classify(err error) string {
 	switch {
 	case err == nil:
 		return "nil"
-	case errors.Is(err, context.Canceled) || errors.Is(err, context.DeadlineExceeded):
+	case err == context.Canceled || err == context.DeadlineExceeded:
 		return "ctxErr"
+	case errors.Is(err, errC07Cause):
+		return "causeNotCtxErr" // the contract is ctx.Err()
 	case strings.HasPrefix(err.Error(), "Runtime Error:"):
 		return "runErr"
 	default:
@@ -239,7 +244,9 @@ func c07Handle(raw []byte) map[string]interface{} {
 		}
 	}
 	c07cur.Store(r)
-	ctx, cancel := context.WithCancel(context.Background())
+	// cancellation carries a cause: what RunContext returns must still be the context's error (ctx.Err()), not the cause
+	ctx, cancelCause := context.WithCancelCause(context.Background())
+	cancel := func() { cancelCause(errC07Cause) }
 	doCancel := func() {
 		r.mu.Lock()
 		r.logLocked(map[string]interface{}{"e": "cancel"})
@@ -251,7 +258,9 @@ func c07Handle(raw []byte) map[string]interface{} {
 		// really does, which only makes the validation more permissive, never unsound.
 		r.logLocked(map[string]interface{}{"e": "cancel"})
 		cancel()
-		ctx, cancel = context.WithTimeout(context.Background(), time.Duration(cs.DelayUs)*time.Microsecond)
+		var cancelT context.CancelFunc
+		ctx, cancelT = context.WithTimeoutCause(context.Background(), time.Duration(cs.DelayUs)*time.Microsecond, errC07Cause)
+		cancel = func() { cancelT() }
 	}
 	if cs.Cancel == "precall" {
 		doCancel()
@@ -274,7 +283,11 @@ func c07Handle(raw []byte) map[string]interface{} {
 			}
 			// leak window: with the runner still blocked the caller must not return
 			t := time.Now()
-			for time.Since(t) < 15*time.Millisecond {
+			window := 15 * time.Millisecond
+			if cs.LeakMs > 0 {
+				window = time.Duration(cs.LeakMs) * time.Millisecond
+			}
+			for time.Since(t) < window {
 				if atomic.LoadInt32(&r.retSeen) == 1 {
 					leak = true
 					break
